@@ -51,8 +51,13 @@ def _scan_suspend(prog, S, tags):
     return [scan.scan_constructions(prog, "Suspend", {"eudoxia.scheduler.priority", "eudoxia.scheduler.rest"}, tags)]
 
 
+def _extra_c01(prog, S, tier, seed):
+    import extras
+    return [extras.run_child("dag_iteration_exhaustive", REPO, 6)]
+
+
 PROPS = {
-    "C01": dict(scans=_scans_state_writers),
+    "C01": dict(scans=_scans_state_writers, extra=_extra_c01),
     "C02": dict(scans=_scans_state_writers),
     "C03": dict(scans=_scans_pool_writers),
     "C04": dict(scans=_scans_pool_writers),
@@ -110,8 +115,9 @@ def run(pid: str, tier: str, replay: str | None, t0: float) -> int:
     for q, r in failing:
         k = [k for k in known["known"] if k["property"] == pid and k["obligation"] == r["name"]]
         (knowns if k else violations).append((q, r, k[0] if k else None))
-    n_obl = len(relevant) + len(scans) + len(lemma_res) + len(extra_res)
-    n_dis = n_obl - len(failing) - len(bad_scans) - len(bad_lemmas) - len(bad_extra)
+    # bounded / native parts are reported separately and never counted as discharged obligations
+    n_obl = len(relevant) + len(scans) + len(lemma_res)
+    n_dis = n_obl - len(failing) - len(bad_scans) - len(bad_lemmas)
     wall = time.time() - t0
     # ---- evidence ---------------------------------------------------------------------------------
     backends = {}
